@@ -523,5 +523,47 @@ theorem full_anti_entropy_converges (H : Hasher) (hI : Ideal H) (cfg : Cfg) (n :
   rw [← tr i si hsi, ← tr j sj hsj]
   exact e
 
+/-- **loss, then anti-entropy ⇒ converged READS**: any execution of the simulator cluster (client
+    writes on any nodes, gossip with any loss / delay, partitions, heals, exchanges) that has no
+    partition left, followed by one `run_full_anti_entropy`: every node answers `GET k` alike, for
+    every key — the nodes that accepted the writes included.  Hypotheses: a collision-free hash and
+    `max_keys_per_sync` at least the number of keys ever written. -/
+theorem full_anti_entropy_converged_reads (H : Hasher) (hI : Ideal H) (cfg : Cfg) (n : Nat) (causal : Bool)
+    (routers : List (Option Gossip.Router)) (autoAE : Bool) (evs : List SEv)
+    (hparts : ((Sim.init n causal routers autoAE).run H cfg evs).parts = []) (U : List Nat)
+    (hU : ∀ m ∈ ((Sim.init n causal routers autoAE).run H cfg evs).issued, m.key ∈ U)
+    (hlen : U.length ≤ effectiveLimit currentLimitAtLeastOne cfg.limit) (k : Nat) (i j : Nat) (ni nj : SNode)
+    (hi : ((Sim.init n causal routers autoAE).run H cfg (evs ++ [.fullSync])).nodes[i]? = some ni)
+    (hj : ((Sim.init n causal routers autoAE).run H cfg (evs ++ [.fullSync])).nodes[j]? = some nj) :
+    NMap.get ni.kv k = NMap.get nj.kv k := by
+  apply sim_reads_agree_of_agree H cfg n causal routers autoAE (evs ++ [.fullSync]) i j ni nj hi hj k
+  have hr : Reach H cfg n causal ((Sim.init n causal routers autoAE).run H cfg evs) := ⟨routers, autoAE, evs, rfl⟩
+  have hrun : (Sim.init n causal routers autoAE).run H cfg (evs ++ [.fullSync]) =
+      ((Sim.init n causal routers autoAE).run H cfg evs).step H cfg .fullSync := by
+    simp [Sim.run, List.foldl_append]
+  have hag := full_anti_entropy_converges H hI cfg n causal _ hr hparts U hU hlen k
+  rw [← hrun] at hag
+  exact hag i j ni.ps.sh nj.ps.sh (abs_nodes_get _ i ni hi) (abs_nodes_get _ j nj hj)
+
+/-! ## witnesses -/
+
+set_option maxRecDepth 8000 in
+/-- three nodes pairwise partitioned; every node accepts writes nobody else hears of (one key
+    written on two nodes, one deleted); the partitions are removed WITHOUT anti-entropy and the
+    queue is empty: nothing would ever repair this — one `run_full_anti_entropy` does, and every
+    node serves the same: the greatest-stamp write of `x`, nothing for the deleted `y`, `z` -/
+theorem loss_then_full_anti_entropy_witness :
+    let c := (Sim.init 3 false [] false).run toyH cfg2
+      [ .partition 0 1, .partition 0 2, .partition 1 2,
+        .exec 0 (.set kX [97] none), .exec 1 (.set kX [98] none), .exec 1 (.set kX [99] none),
+        .exec 2 (.set kY [1] none), .exec 2 (.del [kY]), .exec 2 (.set kZ [7] (some 10)),
+        .gossip [], .heal 0 1, .heal 0 2, .heal 1 2, .advance 10, .gossip [] ]
+    let c' := c.step toyH cfg2 .fullSync
+    c.parts = [] ∧ c.queue = [] ∧ c.syncs = 0 ∧
+    kvAt c 0 kX = some (some [97]) ∧ kvAt c 1 kX = some (some [99]) ∧ kvAt c 2 kX = some none ∧
+    (∀ i, i < 3 → kvAt c' i kX = some (some [99]) ∧ kvAt c' i kY = some none ∧ kvAt c' i kZ = some (some [7])) ∧
+    c'.syncs = 3 := by
+  decide
+
 end C06
 end RedisVerif
